@@ -160,10 +160,13 @@ class C01(object):
             for i, c in enumerate(("tth", "eta", "ds", "gx", "gy", "gz")):
                 K[c] = out[:, i].copy()
             gvK = a3["gv"]
-            if gvK.tobytes() != out[:, 3:6].copy().tobytes():
+            # two kernels, two pieces of code: equal to floating point accuracy (on the current tree even bitwise)
+            dk = np.abs(gvK - out[:, 3:6])
+            lim = 1e-9 * max(1.0, float(np.abs(out[:, 3:6]).max())) if n else 0.0
+            if n and (not np.isfinite(gvK).all() or dk.max() > lim):
                 viol = {"class": "kernels-disagree", "key": "compute_gv:kernels-disagree",
                         "detail": "compute_gv and compute_geometry give different g-vectors for the same input "
-                                  "(max diff %.3g)" % np.abs(gvK - out[:, 3:6]).max()}
+                                  "(max diff %.3g)" % dk.max()}
         # ---------------- R: reference (slow Python route)
         P = prm.parameters(**pars)
         base = cfm.colfile_from_dict({"sc": sc.copy(), "fc": fc.copy(), "omega": om.copy()})
